@@ -22,6 +22,9 @@ Families
   B  programs: every program of the stated sizes (quick: 1 task x 2 calls, 2 tasks x 1 call; thorough adds 1 x 3 and
      2 + 1) over the 11-letter call alphabet on representative logs, both baselines, both wake orders of blocked
      callers, single-deviation budgets (r, p, f, x).
+  W  both partitions empty, getone() parked; an outside producer appends a record to t-0 at the instant the long poll of
+     the other broker expires, so a reply with data and a reply without are pending together (p<=1, p<=1 + r<=1): the
+     parked caller must be woken
   H  hand-picked 3-4 call programs (seek / pause / max_records races across two tasks) with pairwise budgets.
 """
 from vf import conslogs, explore, scen_consumer
@@ -163,6 +166,12 @@ def scenarios(ctx):
             else:
                 b = [{"r": 1, "f": 1}, {"p": 1, "f": 1}, {"r": 1, "p": 1}, {"r": 2}, {"f": 2}, {"r": 1, "x": 1}]
             add(f"H/{basel}/{prog_name(prog)}", params, b)
+    # ---- family W: a reply with data and a reply without data land together while getone() is parked -----------------
+    for basel in ("net", "app"):
+        params = {"logs": {"0": {"shapes": []}, "1": {"shapes": []}}, "baseline": basel,
+                  "program": [[["getone", [], 1.5]]], "produce": {"part": 0, "node": 1, "nth": 1}}
+        b = [{"p": 1}, {"p": 1, "r": 1}] if (basel == "net" or not quick) else [{"p": 1}]
+        add(f"W/{basel}/parked-getone", params, b)
     return out
 
 
